@@ -404,6 +404,12 @@ def judge_consumer(world, h, relaxed):
         if n_dec > 1:
             world.ambiguous += 1
         act = _actual_descr(a)
+        if a['out'] == 'cancelled-error' and world.scenario['property'] == 'C03' and not any(c_['t'] <= a['t'] for c_ in h.cancels.get(iid, [])):
+            # the awaiting task was cancelled (a bare CancelledError came out of the await) although its owner never
+            # cancelled it: a shutdown of the face is reported to the caller as InterestCanceled, it does not kill the caller
+            world.violate('C03', 'caller-task-cancelled', comp, 'express',
+                          f'Interest {iid} {_fmt_name(ex["name"])}: awaiting it raised a bare CancelledError at t={a["t"]}us although '
+                          f'nobody cancelled the caller')
         ok03 = _in(act, acc03, fe)
         ok05 = _in(act, acc05, fe)
         where = 'express'
